@@ -214,6 +214,39 @@ def dumpstruct_after_assignment(ctx):
                 ctx.violation("dumpstruct", "dumpstruct-lists-stale-values-after-assignment", dict(det, missing=missing, got=out))
             else:
                 ctx.event("dumpstruct_after_assignment_checked")
+        # the listing follows the structure type as it is now: fields added after it was dumped once are listed
+        for how in ("add_field", "start_update"):
+            ctx.evaluation(("dumpstruct-after-extension", compiled, how))
+            ctx.cell("dumpstruct:after-extension")
+            det = {"compiled": compiled, "how": how, "workload": "dumpstruct-after-assignment", "what": "structure extended between two dumps"}
+            try:
+                cs = lib.load("struct ext { uint8 kind; uint8 flags : 3; uint16 length; };", "<", False, compiled)
+                data = bytes(range(1, 17))
+                first = ANSI.sub("", dumpstruct(cs.ext, data, color=True, output="string"))
+                ANSI.sub("", dumpstruct(cs.ext(data), color=False, output="string"))
+                if how == "add_field":
+                    cs.ext.add_field("crc", cs.uint32)
+                    cs.ext.add_field("x", cs.uint8)
+                else:
+                    with cs.ext.start_update():
+                        cs.ext.add_field("crc", cs.uint32)
+                        cs.ext.add_field("x", cs.uint8)
+                o = cs.ext(data)
+                outs = [ANSI.sub("", dumpstruct(cs.ext, data, color=c, output="string")) for c in (True, False)] + \
+                       [ANSI.sub("", dumpstruct(o, color=c, output="string")) for c in (True, False)]
+                need = ["- kind: 0x1", "- length:", f"- crc: {hex(int(o.crc))}", f"- x: {hex(int(o.x))}"]
+                missing = sorted({x for out in outs for x in need if x not in out})
+                if any(ref_hexdump(o.dumps()) not in out for out in outs):
+                    missing.append("hexdump of all the bytes of the extended structure")
+                if "- crc" in first:
+                    missing.append("(the first dump listed a field that did not exist)")
+            except Exception as e:  # noqa: BLE001
+                ctx.violation("dumpstruct", f"dumpstruct-raises:{type(e).__name__}", dict(det, error=lib.exc_sig(e)))
+                continue
+            if missing:
+                ctx.violation("dumpstruct", "dumpstruct-does-not-list-the-fields-the-structure-has-now", dict(det, missing=missing, got=outs[0]))
+            else:
+                ctx.event("dumpstruct_after_extension_checked")
         # a structure reached through two levels of unions
         ctx.evaluation(("dumpstruct-nested-union-member", compiled))
         try:
@@ -323,6 +356,26 @@ def packs(ctx, rng, n):
             except Exception as e:  # noqa: BLE001
                 ctx.violation("swap", f"swap-raises:{type(e).__name__}", {"value": v, "bits": bits,
                                                                           "error": lib.exc_sig(e)})
+    # swap with a width that is not a whole number of bytes works on the whole bytes that hold it: the reversal of
+    # those bytes, and twice is the identity
+    for i in range(max(30, n // 10)):
+        bits = rng.choice([1, 3, 7, 9, 12, 15, 17, 20, 31, 33, 63, 65, 100])
+        v = rng.choice([rng.randrange(1 << bits), (1 << bits) - 1, 1, rng.randrange(1 << bits) | 1])
+        nb = (bits + 7) // 8
+        ctx.evaluation(("swap-odd-width", bits, v))
+        ctx.cell("swap:width-not-a-multiple-of-8")
+        try:
+            s1 = utils.swap(v, bits)
+            s2 = utils.swap(s1, bits)
+        except Exception as e:  # noqa: BLE001
+            ctx.violation("swap", f"swap-raises:{type(e).__name__}", {"value": v, "bits": bits, "error": lib.exc_sig(e)})
+            continue
+        if s1 != int.from_bytes(v.to_bytes(nb, "big"), "little"):
+            ctx.violation("swap", "swap-differs-from-byte-reversal", {"value": v, "bits": bits, "got": s1})
+        elif s2 != v:
+            ctx.violation("swap", "swap-twice-is-not-identity", {"value": v, "bits": bits, "once": s1, "twice": s2})
+        else:
+            ctx.event("odd_width_swaps")
     # widths that are not a whole number of bytes: pack rounds up to whole bytes, unpack must accept exactly those
     for i in range(max(20, n // 20)):
         bits = rng.choice([1, 3, 7, 9, 12, 15, 17, 20, 31, 33, 63, 65, 100])
